@@ -49,6 +49,7 @@ type Spec struct {
 	lemmas  []*Lemma
 	pending []func(cx *Ctx) // declarations that need the encoder (run once)
 	trusted []string
+	globalQ map[string]bool // recursive definitions that quantify over pointers or maps
 }
 
 func NewSpec() *Spec {
@@ -464,4 +465,77 @@ func (cx *Ctx) collectApps(t *Term, bound map[string]bool, seen map[string]bool,
 			*out = append(*out, t)
 		}
 	}
+}
+
+// quantifiesOverRefs: the definition (or one it calls) quantifies over pointers or maps, so its value depends
+// on every object of the heap, not only on what its arguments reach.
+func (sp *Spec) quantifiesOverRefs(name string) bool {
+	if sp.globalQ == nil {
+		sp.globalQ = map[string]bool{}
+		var has func(e *Expr) bool
+		has = func(e *Expr) bool {
+			if e == nil {
+				return false
+			}
+			if e.Kind == "quant" {
+				for _, v := range e.Vars {
+					if strings.HasPrefix(v.Type, "*") || v.Type == "Dict" || v.Type == "ref" || strings.HasPrefix(v.Type, "map[") {
+						return true
+					}
+				}
+			}
+			if e.Kind == "call" {
+				if d, ok := sp.defs[e.Name]; ok && has(d.Body) {
+					return true
+				}
+			}
+			for _, x := range []*Expr{e.X, e.Y, e.Z} {
+				if has(x) {
+					return true
+				}
+			}
+			for _, a := range e.Args {
+				if has(a) {
+					return true
+				}
+			}
+			return false
+		}
+		for n, rd := range sp.recdefs {
+			sp.globalQ[n] = has(rd.Body)
+		}
+		for changed := true; changed; {
+			changed = false
+			for n, rd := range sp.recdefs {
+				if sp.globalQ[n] {
+					continue
+				}
+				var calls func(e *Expr) bool
+				calls = func(e *Expr) bool {
+					if e == nil {
+						return false
+					}
+					if e.Kind == "call" && sp.globalQ[e.Name] {
+						return true
+					}
+					for _, x := range []*Expr{e.X, e.Y, e.Z} {
+						if calls(x) {
+							return true
+						}
+					}
+					for _, a := range e.Args {
+						if calls(a) {
+							return true
+						}
+					}
+					return false
+				}
+				if calls(rd.Body) {
+					sp.globalQ[n] = true
+					changed = true
+				}
+			}
+		}
+	}
+	return sp.globalQ[name]
 }
